@@ -119,7 +119,7 @@ pub fn run_pool_range(ctx: &Ctx, range: std::ops::Range<usize>, budget_s: u64) -
                     let status = child.wait();
                     if let Ok(s) = t.join() { se = s; }
                     match so.lines().last().and_then(|l| serde_json::from_str::<ItemResult>(l).ok()) {
-                        Some(r) => res = r,
+                        Some(mut r) => { if let Some(m) = r.machinery_error.as_mut() { let tail: String = se.chars().rev().take(1200).collect::<String>().chars().rev().collect(); m.push_str(" | stderr: "); m.push_str(&tail); } res = r }
                         None => res.machinery_error = Some(format!("item {} produced no result (status {:?}); stderr: {}", idx, status, se.chars().rev().take(1500).collect::<String>().chars().rev().collect::<String>())),
                     }
                 }
